@@ -376,7 +376,7 @@ impl Mp4Track {
 
     /// return `(traf_idx, sample_idx_in_trun)`
     fn find_traf_idx_and_sample_idx(&self, sample_id: u32) -> Option<(usize, usize)> {
-        let global_idx = sample_id - 1;
+        let global_idx = sample_id.checked_sub(1)?;
         let mut offset = 0;
         for traf_idx in 0..self.trafs.len() {
             if let Some(trun) = &self.trafs[traf_idx].trun {
